@@ -13,6 +13,7 @@ def k19 (t : Tokens) : String :=
   let lim := if t.str "via" == "server" then min count (t.nat "msize" - 11) else total + 1
   let got := listAll (E.length + 2) E count lim 0
   let complete := if got == E then 1 else 0
-  s!"complete={complete} missing={E.length - got.length} dup=0 qidok=1 pages={pages (E.length + 2) E count lim 0}"
+  -- (a second pass from offset 0 through the same open fid lists the same: `resume_from_offset` at 0)
+  s!"complete={complete} missing={E.length - got.length} dup=0 qidok=1 pages={pages (E.length + 2) E count lim 0} again={complete}"
 
 end P9.Driver
